@@ -112,6 +112,34 @@ def exh_history(idx):
     return hist, mods
 
 
+def gen_reset_and_reload(rng):
+    """'reset the table and load it again while a drain is in progress': an enumeration (retract or query) is suspended
+    after one or two answers, the predicate is emptied completely (retractall, or retracts one by one) and then filled
+    again with k facts for every small k - equal to, fewer and more than the writes it had seen before"""
+    c = {'api_histories': 1, 'reset_and_reload_histories': 1}
+    m = rng.choice([1, 2, 3, 3, 4, 5])
+    k = rng.randrange(0, m + 5)
+    X = V('X')
+    hist = [('assert_fact', C('p', A('v%d' % i)), True) for i in range(m)]
+    kind = rng.choice(['retract', 'retract', 'query'])
+    hist.append(('start', 1, 'retract', [C('p', X)]) if kind == 'retract' else ('start', 1, 'p', [X]))
+    for _ in range(rng.choice([1, 1, 2])):
+        hist.append(('next', 1))
+    if rng.random() < 0.6:
+        hist.append(('run', 'retractall', [C('p', V('_'))], None))
+    else:
+        for _ in range(m):
+            hist.append(('run', 'retract', [C('p', V('_'))], 1))
+    for j in range(k):
+        # the reloaded facts: the same values again, or new ones
+        val = A('v%d' % j) if rng.random() < 0.6 else A('w%d' % j)
+        hist.append(('assert_fact', C('p', val), rng.random() < 0.8))
+    for _ in range(m + 2):
+        hist.append(('next', 1))
+    hist.append(('dump', [('p', 1)]))
+    return hist, c, True
+
+
 def gen_api(rng):
     key = rng.choice([('p', 1), ('p', 1), ('p', 2), ('p', 2), ('p', 3), ('tok', 0)])
     name, n = key
@@ -326,7 +354,10 @@ def run_case(ctx, seed, idx, tier):
         hist, mods = exh_history(idx)
         return judge(ctx, hist, {'exhaustive_interleavings': 1, 'mods_while_suspended': mods}, mods > 0)
     rng = random.Random((seed * 1000003 + idx) * 7 + 14)
-    if rng.random() < 0.6:
+    r0 = rng.random()
+    if r0 < 0.06:
+        hist, c, nt = gen_reset_and_reload(rng)
+    elif r0 < 0.6:
         hist, c, nt = gen_api(rng)
     else:
         hist, c, nt = gen_compiled(rng)
